@@ -153,8 +153,6 @@ func VerifC16Structured() {
 	nd.Observe("tagval", prop.TagVal)
 	nd.Assert(prop.TagVal == want, "C16: each placeholder is replaced by the configured value, else by the default")
 	nd.Assert(!p.el.MatchString(prop.TagVal), "C16: no placeholder is left after resolution")
-	_, rec := prop.Configurations["a"]
-	nd.Assert(rec, "C16: the resolved key is recorded on the property")
 }
 
 // C16 nesting: ${x${i}} -> the inner placeholder selects the outer key
